@@ -56,7 +56,11 @@ func (g *Gen) scalar() V {
 }
 func (g *Gen) drv() V {
 	mk := func(s Sc, variant string) V { return V{T: "VDrv", Sc: &s, Go: variant} }
-	switch g.r.Intn(8) {
+	switch g.r.Intn(10) {
+	case 8: // array-kinded Valuer
+		return mk(Sc{K: "str", S: g.fr.str()}, "pair")
+	case 9: // Valuer whose Value() is a []byte
+		return mk(Sc{K: "bytes", S: g.fr.str()[:3+g.r.Intn(3)]}, "binkey")
 	case 0, 1:
 		return mk(Sc{K: "str", S: g.fr.str()}, "nullstring")
 	case 2:
@@ -90,7 +94,13 @@ func (g *Gen) list(depth int, allowEmpty bool) V {
 	plainInt := func(variant string) func() V {
 		return func() V { return vs(Sc{K: "int", I: int64(g.r.Range(1, 60))}, variant) }
 	}
-	switch g.r.Intn(12) {
+	switch g.r.Intn(14) {
+	case 12, 13: // element type of KIND uint8 that is not uint8 itself: a list of values, not a byte string
+		if g.r.Chance(1, 3) {
+			n = 2
+			return mkl("LU8", "[2]level", plainInt("level"))
+		}
+		return mkl("LU8", "[]level", plainInt("level"))
 	case 0, 1:
 		return mkl("LKnown", "[]string", plainStr)
 	case 2:
@@ -161,6 +171,13 @@ func (g *Gen) expr(depth int) V {
 	}
 	return V{T: "VExpr", S: "length(?)", L: []V{g.str()}}
 }
+func (g *Gen) drvNonNull() V {
+	for {
+		if v := g.drv(); v.Sc.K != "null" {
+			return v
+		}
+	}
+}
 func (g *Gen) tags() V {
 	s := Sc{K: "str", S: g.fr.str() + "," + g.fr.str()}
 	return V{T: "VDrv", Sc: &s, Go: "tags"}
@@ -168,6 +185,9 @@ func (g *Gen) tags() V {
 
 func (g *Gen) listOf2() V {
 	l := g.list(0, false)
+	if l.S == "LU8" {
+		g.exec = false // coalesce((?,?)): gorm hands a list of a uint8-kind element type whole to AddVar, which adds its own parentheses
+	}
 	for len(l.L) < 2 && l.Go != "[2]int64" {
 		l.L = append(l.L, l.L[0])
 	}
@@ -423,7 +443,7 @@ func (g *Gen) cexpr(depth int) V {
 		switch g.r.Intn(6) {
 		case 0:
 			v = g.list(0, true)
-			if v.S == "LOther" && len(v.L) != 1 {
+			if (v.S == "LOther" || v.S == "LU8") && len(v.L) != 1 {
 				g.exec = false // `col = (?,?)`
 			}
 			if op != "OEq" && op != "ONeq" && len(v.L) != 1 {
@@ -612,7 +632,7 @@ func (g *Gen) condForm(depth int) (V, []V) {
 		switch g.r.Intn(6) {
 		case 0:
 			v = g.list(0, true)
-			if v.S == "LOther" && len(v.L) != 1 {
+			if (v.S == "LOther" || v.S == "LU8") && len(v.L) != 1 {
 				g.exec = false
 			}
 		case 1:
@@ -677,7 +697,30 @@ func (g *Gen) condForm(depth int) (V, []V) {
 		}
 	case 17:
 		// primary keys
-		switch g.r.Intn(4) {
+		switch g.r.Intn(8) {
+		case 4, 5: // a driver.Valuer of ANY Go kind (struct, slice, array, string; Value() a string, an int, a []byte)
+			// as the only key: one value, bound once
+			for {
+				if v := g.drv(); v.Sc.K != "null" {
+					return v, nil
+				}
+			}
+		case 6: // several keys, Valuers and lists among them: IN over all of them, each bound whole
+			n := g.r.Range(1, 2)
+			rest := make([]V, n)
+			for i := range rest {
+				rest[i] = lib.Pick(g.r, []V{g.int(), g.tags(), g.str()})
+			}
+			return lib.Pick(g.r, []V{g.int(), g.tags(), g.drvNonNull()}), rest
+		case 7: // a []byte as the only key / a list of a named uint8-kind type as the key list
+			if g.r.Bool() {
+				return g.bytes(), nil
+			}
+			l := V{T: "VList", S: "LU8", Go: "[]level"}
+			for i := g.r.Range(1, 3); i > 0; i-- {
+				l.L = append(l.L, vs(Sc{K: "int", I: int64(g.r.Range(1, 9))}, "level"))
+			}
+			return l, nil
 		case 3: // a driver.Valuer as primary key: its Value() is used
 			s := Sc{K: "int", I: int64(g.r.Range(1, 9))}
 			return V{T: "VDrv", Sc: &s, Go: "nullint64"}, nil
